@@ -227,8 +227,14 @@ Definition m_from_coo (idx : option dty) (xd : dty) (rows cols : Z) (lin : list 
 
 (* ---------------------------------------------------------------- _compressed/common.concatenate|stack:
    splice of the index-pointer arrays.  ptrs: (indptr, nnz) of every operand *)
-Definition gcxs_join_dtype (d : dty) (total : Z) : res dty :=
-  if negb (can_store d total) then dec_dty1 (g_gcxs_concat_upcast (dty_pyv d) (VInt total)) else Ok d.
+Definition gcxs_join_dtype (d : dty) (needed : Z) : res dty :=
+  if negb (can_store d needed) then dec_dty1 (g_gcxs_concat_upcast (dty_pyv d) (VInt needed)) else Ok d.
+(* length of np.concatenate([p0, p1[1:], p2[1:], ...]) *)
+Definition joined_len (ptrs : list (list Z * Z)) : Z :=
+  match ptrs with
+  | [] => 0
+  | (p0, _) :: r => Z.of_nat (length p0) + zsum (map (fun p => Z.of_nat (length (tl (fst p)))) r)
+  end.
 
 (* segment j receives, in order, `+= nnz_0`, …, `+= nnz_(j-1)` *)
 Fixpoint add_all (seg : tarr) (offs : list Z) : res tarr :=
@@ -245,7 +251,8 @@ Fixpoint join_tail (d : dty) (prev : list Z) (segs : list (list Z * Z)) : res (l
       Ok (tv s ++ rest)
   end.
 Definition m_gcxs_join (d : dty) (ptrs : list (list Z * Z)) : res tarr :=
-  d' <- gcxs_join_dtype d (zsum (map snd ptrs)) ;;
+  (* needed = max(total_nnz, indptr.shape[0] - 1): the dtype also has to hold the row numbers *)
+  d' <- gcxs_join_dtype d (s_gcxs_join_needed (zsum (map snd ptrs)) (joined_len ptrs)) ;;
   match ptrs with
   | [] => Ok (mkT d' [])
   | (p0, n0) :: r => t <- join_tail d' [n0] r ;; Ok (mkT d' (map (wr d') p0 ++ t))
